@@ -379,6 +379,80 @@ def _explicit() -> dict[str, tuple[str, Callable[[Path], Any]]]:
     return rec
 
 
+# --------------------------------------------------------------------------- constructor options (variants)
+#
+# "all configurations": a class of the factories is also instantiated with every constructor option that has a
+# default value set to a NON-default value, one option at a time (`Sellar1[n=2]`,
+# `SobieskiMission[dtype=complex128]`, ...).  The values are derived from the signature, so that an option added to
+# a class is picked up without editing this file.  What a `__setstate__` hook / an `_init_shared_memory_attrs_*`
+# re-creates from the configuration (and not from the pickled state) only shows for a non-default configuration.
+
+
+def option_values(param) -> list[tuple[str, Any]]:
+    """Non-default values of a constructor option, derived from its default: (label, value)."""
+    import enum
+
+    d = param.default
+    if isinstance(d, enum.Enum):
+        return [(str(getattr(m, "value", m.name)), m) for m in type(d) if m != d]
+    if isinstance(d, bool):
+        if "float" in str(param.annotation):  # (`enable_delay: bool | float`: True would sleep one second per run)
+            return [("1/1024", 2.0**-10)]
+        return [(str(not d), not d)]
+    if isinstance(d, int):
+        return [(str(d + 1), d + 1)]
+    if isinstance(d, float):
+        return [(repr(d * 0.5 + 0.375), d * 0.5 + 0.375)]
+    return []
+
+
+def class_variants(cls) -> list[tuple[str, dict[str, Any]]]:
+    """(label, keyword arguments) for every option of `cls.__init__` that has a default of a known kind."""
+    import inspect
+
+    try:
+        sig = inspect.signature(cls.__init__)
+    except (TypeError, ValueError):
+        return []
+    out = []
+    for pname, p in sig.parameters.items():
+        if pname == "self" or p.default is inspect.Parameter.empty or p.kind in (p.VAR_KEYWORD, p.VAR_POSITIONAL):
+            continue
+        for label, value in option_values(p):
+            out.append((f"{pname}={label}", {pname: value}))
+    return out
+
+
+def _explicit_variants() -> dict[str, tuple[str, Callable[[Path], Any]]]:
+    """Non-default settings of classes whose recipes are explicit (cheap ones)."""
+
+    def mda_with(cls_name, coupled, **kw):
+        def build(tmp):
+            from gemseo.mda.factory import MDAFactory
+
+            ds = _sellar()[:2] if coupled == "sellar-strong" else _sellar() if coupled == "sellar" else _affine_coupled()
+            return MDAFactory().create(cls_name, ds, **kw)
+
+        return build
+
+    def analytic_named(tmp):
+        from gemseo.disciplines.analytic import AnalyticDiscipline
+
+        return AnalyticDiscipline({"y": "2*x+z**2", "w": "x*z-1"}, name="named")
+
+    return {
+        "MDAJacobi[affine,tolerance=1/1024,max_mda_iter=7]": ("MDAJacobi", mda_with("MDAJacobi", "affine", tolerance=2.0**-10, max_mda_iter=7)),
+        "MDAGaussSeidel[affine,over_relaxation_factor=7/8]": ("MDAGaussSeidel", mda_with("MDAGaussSeidel", "affine", over_relaxation_factor=0.875)),
+        "MDAChain[affine,inner_mda_name=MDAGaussSeidel]": ("MDAChain", mda_with("MDAChain", "affine", inner_mda_name="MDAGaussSeidel")),
+        "AnalyticDiscipline[name=named]": ("AnalyticDiscipline", analytic_named),
+    }
+
+
+def is_variant(recipe: str) -> bool:
+    """A recipe with a non-default constructor option (`Class[option=value]`)."""
+    return "=" in recipe
+
+
 _RECIPES: dict[str, tuple[str, Callable[[Path], Any]]] | None = None
 
 
@@ -404,6 +478,19 @@ def discipline_recipes() -> tuple[dict[str, tuple[str, Callable[[Path], Any]]], 
                 return _fac.create(_name)
 
             rec[name] = (name, build)
+            # the same class with each constructor option at a non-default value
+            try:
+                variants = class_variants(fac.get_class(name))
+            except Exception:  # noqa: BLE001
+                variants = []
+            for label, kw in variants:
+
+                def build_variant(tmp, _fac=fac, _name=name, _kw=kw):
+                    return _fac.create(_name, **_kw)
+
+                rec[f"{name}[{label}]"] = (name, build_variant)
+        for vname, v in _explicit_variants().items():
+            rec.setdefault(vname, v)
         _RECIPES = rec
     skipped.update(EXTERNAL)
     return _RECIPES, skipped
